@@ -19,7 +19,9 @@ import (
 //                 planted with at least one code role must survive
 //   completeness  every import planted as unused (not a wildcard, no role, no mention) is deleted, in EVERY file
 //   idempotence   the second run changes no byte of any file
-// Not demanded: anything about imports whose simple name occurs only in a comment or string literal (counted).
+// Not demanded: anything about imports whose simple name occurs only in a comment or string literal (counted);
+// the cleaning of real test sources by name (*Test.java / *Tests.java), which the tool's walk skips by design
+// (frame, soundness and idempotence still hold for them).
 
 // ImpObserved is what was read back for one file (paths relative to the directory, slash separated).
 type ImpObserved struct {
@@ -39,6 +41,7 @@ type ImpStats struct {
 	Files, FilesWithUnused, FilesChanged    int
 	Imports, Wildcards, MustKeep, Kept      int
 	Unused, UnusedDeleted                   int
+	BystanderFiles, BystanderUnusedKept     int
 	Ambiguous, AmbiguousDeleted             int
 	LinesDeleted, NonImportLinesDeleted     int
 	SecondRunsCompared, SecondRunsUnchanged int
@@ -134,7 +137,9 @@ func ImpCheck(p *importgen.Project, obs map[string]ImpObserved, extraFiles, miss
 		st.Files++
 		st.Imports += len(f.Imports)
 		nUnused := f.CountUnused()
-		if nUnused > 0 {
+		if f.Bystander {
+			st.BystanderFiles++
+		} else if nUnused > 0 {
 			st.FilesWithUnused++
 		}
 		for i := range f.Imports {
@@ -145,6 +150,7 @@ func ImpCheck(p *importgen.Project, obs map[string]ImpObserved, extraFiles, miss
 				st.MustKeep++
 			case im.MustKeep():
 				st.MustKeep++
+			case im.Unused() && f.Bystander:
 			case im.Unused():
 				st.Unused++
 			case im.Ambiguous():
@@ -208,8 +214,14 @@ func ImpCheck(p *importgen.Project, obs map[string]ImpObserved, extraFiles, miss
 			case im.Unused() && del:
 				st.UnusedDeleted++
 				st.KindsDeleted[im.Kind]++
+			case im.Unused() && f.Bystander:
+				st.BystanderUnusedKept++ // a test source by name: the tool skips it by design, cleaning is not demanded
 			case im.Unused():
-				add("unused-kept/"+im.Kind+"@"+pos+"/"+f.TypeKind, "%s (%s, file %d of %d, %d unused imports planted): line %d %q is referenced nowhere in the file and was not deleted",
+				kindOfFile := f.TypeKind
+				if low := strings.ToLower(f.TypeName); strings.HasSuffix(low, "test") || strings.HasSuffix(low, "tests") {
+					kindOfFile += "/name-ends-in-lower-case-test"
+				}
+				add("unused-kept/"+im.Kind+"@"+pos+"/"+kindOfFile, "%s (%s, file %d of %d, %d unused imports planted): line %d %q is referenced nowhere in the file and was not deleted",
 					f.Rel, f.TypeKind, fi+1, n, nUnused, im.Line, impClip(im.Src))
 			case im.Ambiguous() && del:
 				st.AmbiguousDeleted++
